@@ -17,7 +17,8 @@ fn gen_cases(rng: &mut Rng, tier: Tier) -> Vec<Value> {
     let n = if tier == Tier::Thorough { 6000 } else { 400 };
     // VERIF_C15_NONMETRIC=1 (development only): search for witnesses of the known finding S9
     let metric = std::env::var("VERIF_C15_NONMETRIC").is_err();
-    (0..n).map(|_| gen_multi_route_case(rng, metric)).collect()
+    // a third of the work lists contain multi-task candidates (evaluated by `eval_multi`)
+    (0..n).map(|i| if i % 3 == 2 { gen_multi_route_case_with_multi_jobs(rng, metric) } else { gen_multi_route_case(rng, metric) }).collect()
 }
 
 fn cost_json(res: &InsertionResult) -> Value {
